@@ -469,3 +469,5 @@ package immutable
 //@     set copied = true
 //@   call (*Record).Merge on c.merged
 //@     requires [schema_copied_before_rows] copied
+//@   store Record.Schema
+//@     never [merged_schema_never_aliased]
